@@ -159,7 +159,7 @@ PROPS["C10"] = {
 # ---------------------------------------------------------------- C11
 ATTACH["C11"] = {"ac": [("src/graph/mod.rs", "model.rs"), ("src/algorithms/cluster/mod.rs", "cluster_ac.rs")]}
 PROPS["C11"] = {
-    "harnesses": [H(name, "ac", what, tier=tier, covers=covers, bounds="3 nodes; topologies enumerated by the generator; unwind 9", timeout=1500) for (name, call, tier, covers, what) in _gen.c11_cases()],
+    "harnesses": [H(name, "ac", what, tier=tier, covers=covers, bounds="3 nodes; topologies enumerated by the generator; unwind 9", timeout=1500, cap=_c10_cap(name.replace("c11_dir", "weak"))) for (name, call, tier, covers, what) in _gen.c11_cases()],
     "outside": "the weighted forms (f64::cbrt is an unsupported foreign function in Kani); graphs with more than 3 nodes (squares need 4); values compared within 1e-12",
     "assumptions": ["graphs are produced by build_direct (validated by the c02_build_* harnesses)"],
     "jobs": 10,
@@ -183,7 +183,8 @@ PROPS["C12"] = {
             ("c12_modval_ds_s0_p0_w", "directed path, partition {2,0},{1}, weighted", "full"),
             ("c12_modval_us_s1_p0_u", "undirected with a self-loop, unweighted", "full"),
             ("c12_modval_ds_s1_p1_w", "directed with a self-loop, singletons, weighted", "full"),
-            ("c12_modval_um_s2_p0_w", "undirected multi-edge (3 parallel edges), weighted", "quick"),
+            ("c12_modval_um_s2_p0_w", "undirected multi-edge (3 parallel edges), weighted", "thorough"),
+            ("c12_modval_um_s2_p0_u", "undirected multi-edge (3 parallel edges), unweighted: parallel edges counted individually", "quick"),
             ("c12_modval_dm_s2_p2_w", "directed multi-edge, single community, weighted", "thorough"),
             ("c12_modval_us_s5_p0_w", "undirected 3-cycle, weighted", "full"),
             ("c12_modval_ds_s5_p1_u", "directed 3-cycle, singletons, unweighted", "full"),
@@ -232,6 +233,18 @@ PROPS["C16"] = {
     "assumptions": ["f64::ln is replaced by its sign contract on (0,1] (ln(1)=0, negative and >= -745.2 otherwise)", "Graph::add_node / add_edge_tuples are stubbed (recording the pair list); the real mutation code is the subject of C01",
                     "counterexamples are confirmed by a native seeded sweep of the public fast_gnp_random_graph, not value-by-value"],
     "jobs": 4,
+}
+
+# ---------------------------------------------------------------- C17
+ATTACH["C17"] = {"ac": [("src/graph/mod.rs", "model.rs"), ("src/algorithms/community/louvain.rs", "louvain_ac.rs")]}
+PROPS["C17"] = {
+    "harnesses": [
+        H("c17_update_best_com_order_u", "ac", "update_best_com (undirected gain) on a 2-entry neighbour-community map presented in both iteration orders; 12 symbolic integer weights/degrees/totals 1..8: same best community and gain", covers=["the node moves", "the node stays"], bounds="2 neighbour communities", timeout=900, replay=_native.replay_louvain),
+        H("c17_update_best_com_order_d", "ac", "same for the directed gain", covers=["the node moves", "the node stays"], bounds="2 neighbour communities", timeout=900, replay=_native.replay_louvain),
+    ],
+    "outside": "whole louvain_partitions runs (C13: out of reach); other hash-order-dependent sites are not enumerated; fast_gnp_random_graph has no hash iteration (its kernels are covered by C16); the claim is kernel-level: the tie-breaking site named by the property's anchors",
+    "assumptions": ["the shim iterates a map in insertion order, which turns the iteration order into a harness input", "counterexamples are confirmed natively by repeated seeded louvain_partitions calls on tie graphs (cycle, K3,3) in one process: more than one distinct result = reproduced"],
+    "jobs": 2,
 }
 
 # ---------------------------------------------------------------- C20
